@@ -3,6 +3,7 @@ package props
 import (
 	"fmt"
 	"go/ast"
+	"go/constant"
 	"go/token"
 	"go/types"
 	"strings"
@@ -61,55 +62,122 @@ func c09Login(c *kit.Ctx, a *c09Anchors, r4 *kit.Rule) {
 		f := a.authHandler
 		info := f.Info()
 		var credCall *ast.CallExpr
-		for _, call := range f.AllCalls(false) {
-			if f.CalleeFunc(call) == a.credFn {
-				credCall = call
+		credIn := f
+		for _, g := range c09Closure(f) {
+			if g.Body == nil || g == a.credFn {
+				continue
 			}
-		}
-		o := r4.Ob(f, credCall, "credential plumbing (store)", "the credential check receives the text of the request's e-mail point as its e-mail parameter and of the password point as its password parameter")
-		// point type behind an argument: <v>.Text with v defined from a call naming the point type
-		typeOf := func(arg ast.Expr) string {
-			sel, ok := ast.Unparen(arg).(*ast.SelectorExpr)
-			if !ok {
-				return ""
-			}
-			def := c09LocalDef(f, sel.X)
-			call, ok := ast.Unparen(def).(*ast.CallExpr)
-			if !ok {
-				// v, ok := call(...)
-				if id, isID := ast.Unparen(sel.X).(*ast.Ident); isID {
-					vo := kit.ObjOf(info, id)
-					ast.Inspect(f.Body, func(n ast.Node) bool {
-						as, isAs := n.(*ast.AssignStmt)
-						if !isAs || len(as.Rhs) != 1 || len(as.Lhs) < 1 || kit.ObjOf(info, as.Lhs[0]) != vo {
-							return true
-						}
-						if cx, isCall := ast.Unparen(as.Rhs[0]).(*ast.CallExpr); isCall {
-							call = cx
-						}
-						return true
-					})
+			for _, call := range g.AllCalls(false) {
+				if g.CalleeFunc(call) == a.credFn {
+					credCall, credIn = call, g
 				}
 			}
+		}
+		o := r4.Ob(credIn, credCall, "credential plumbing (store)", "the credential check receives the text of the request's e-mail point as its e-mail parameter and of the password point as its password parameter")
+		// the call that defines variable vo in g, and the position of vo among its results
+		defCall := func(g *kit.Func, vo types.Object) (*ast.CallExpr, int) {
+			var call *ast.CallExpr
+			idx := -1
+			n := 0
+			ast.Inspect(g.Body, func(x ast.Node) bool {
+				as, isAs := x.(*ast.AssignStmt)
+				if !isAs {
+					return true
+				}
+				for i, l := range as.Lhs {
+					if kit.ObjOf(info, l) != vo {
+						continue
+					}
+					n++
+					if len(as.Rhs) == 1 {
+						if cx, isCall := ast.Unparen(as.Rhs[0]).(*ast.CallExpr); isCall {
+							call, idx = cx, i
+						}
+					} else if i < len(as.Rhs) {
+						if cx, isCall := ast.Unparen(as.Rhs[i]).(*ast.CallExpr); isCall {
+							call, idx = cx, 0
+						}
+					}
+				}
+				return true
+			})
+			if n != 1 {
+				return nil, -1
+			}
+			return call, idx
+		}
+		// point type behind an expression of g: <v>.Text with v defined from a call
+		// naming the point type, or a variable defined from a same-package helper
+		// whose corresponding result is such an expression on every value-carrying return
+		var typeOf func(g *kit.Func, arg ast.Expr, depth int) string
+		typeOf = func(g *kit.Func, arg ast.Expr, depth int) string {
+			if depth > 3 {
+				return ""
+			}
+			arg = ast.Unparen(arg)
+			if sel, ok := arg.(*ast.SelectorExpr); ok {
+				if id, isID := ast.Unparen(sel.X).(*ast.Ident); isID {
+					if call, _ := defCall(g, kit.ObjOf(info, id)); call != nil {
+						for _, a2 := range call.Args {
+							if v, ok := kit.ConstString(info, a2); ok && (v == emailT || v == passT) {
+								return v
+							}
+						}
+					}
+				}
+				return ""
+			}
+			id, isID := arg.(*ast.Ident)
+			if !isID {
+				return ""
+			}
+			call, idx := defCall(g, kit.ObjOf(info, id))
 			if call == nil {
 				return ""
 			}
-			for _, a2 := range call.Args {
-				if v, ok := kit.ConstString(info, a2); ok && (v == emailT || v == passT) {
-					return v
-				}
+			cf := g.CalleeFunc(call)
+			if cf == nil || cf.Body == nil || cf.Pkg != g.Pkg {
+				return ""
 			}
-			return ""
+			res := ""
+			okAll := true
+			ast.Inspect(cf.Body, func(x ast.Node) bool {
+				if _, isLit := x.(*ast.FuncLit); isLit {
+					return false
+				}
+				r, isRet := x.(*ast.ReturnStmt)
+				if !isRet {
+					return true
+				}
+				exprs := c09ResultExprs(cf, r)
+				if idx >= len(exprs) {
+					okAll = false
+					return true
+				}
+				if v, isConst := kit.ConstString(info, exprs[idx]); isConst && v == "" {
+					return true // refusal path: no credential handed out
+				}
+				t := typeOf(cf, exprs[idx], depth+1)
+				if t == "" || (res != "" && res != t) {
+					okAll = false
+				}
+				res = t
+				return true
+			})
+			if !okAll {
+				return ""
+			}
+			return res
 		}
 		switch {
 		case credCall == nil:
 			o.Undecided("credential check call not found")
 		case emailIdx < 0 || passIdx < 0:
-			o.Violation("the credential check compares: e-mail with a parameter: %v, password with a parameter: %v", emailIdx >= 0, passIdx >= 0)
+			o.Undecided("the parameters the credential check compares e-mail and password with were not found (see R5 match table)")
 		case emailIdx >= len(credCall.Args) || passIdx >= len(credCall.Args):
 			o.Undecided("argument count of %s", f.Str(credCall))
 		default:
-			te, tp := typeOf(credCall.Args[emailIdx]), typeOf(credCall.Args[passIdx])
+			te, tp := typeOf(credIn, credCall.Args[emailIdx], 0), typeOf(credIn, credCall.Args[passIdx], 0)
 			switch {
 			case te == "" || tp == "":
 				o.Undecided("cannot relate the arguments of `%s` to the points of the request", f.Str(credCall))
@@ -159,7 +227,7 @@ func c09Login(c *kit.Ctx, a *c09Anchors, r4 *kit.Rule) {
 		})
 		switch {
 		case src[emailT] == nil || src[passT] == nil:
-			o.Violation("%s sends e-mail point from a parameter: %v, password point from a parameter: %v", cf.Name, src[emailT] != nil, src[passT] != nil)
+			o.Undecided("%s: point literals carrying a string parameter were found for e-mail: %v, password: %v", cf.Name, src[emailT] != nil, src[passT] != nil)
 		case src[emailT] == src[passT]:
 			o.Violation("%s sends the same parameter %s as e-mail and as password", cf.Name, src[emailT].Name())
 		default:
@@ -185,50 +253,76 @@ func c09Login(c *kit.Ctx, a *c09Anchors, r4 *kit.Rule) {
 			o.Undecided("no ResponseWriter parameter")
 			continue
 		}
+		fl := newC09Flow(f)
+		fl0 := kit.NewS()
+		flObj := func(e ast.Expr) types.Object { return fl.obj(e) }
 		// a call that writes a success body: the ResponseWriter handed over as
 		// an argument (or its Write method) without an error status constant
 		isBody := func(call *ast.CallExpr) bool {
 			hasRes, errStatus := false, false
 			for _, arg := range call.Args {
-				if kit.ObjOf(info, arg) == types.Object(resP) {
+				if flObj(arg) == types.Object(resP) {
 					hasRes = true
 				}
 				if v, ok := kit.ConstInt(info, arg); ok && v >= 400 && v < 600 {
 					errStatus = true
 				}
 			}
-			if sel, ok := ast.Unparen(call.Fun).(*ast.SelectorExpr); ok && kit.ObjOf(info, sel.X) == types.Object(resP) && sel.Sel.Name == "Write" {
+			if sel, ok := ast.Unparen(call.Fun).(*ast.SelectorExpr); ok && flObj(sel.X) == types.Object(resP) && sel.Sel.Name == "Write" {
 				hasRes = true
+			}
+			if sel, ok := ast.Unparen(call.Fun).(*ast.SelectorExpr); ok && flObj(sel.X) == types.Object(resP) && sel.Sel.Name == "WriteHeader" {
+				return false
+			}
+			if cf, inl := fl.willInline(call, nil); cf != nil && inl {
+				return false // judged inside the helper
 			}
 			return hasRes && !errStatus
 		}
 		isRefusal := func(call *ast.CallExpr) bool {
 			hasRes, errStatus := false, false
 			for _, arg := range call.Args {
-				if kit.ObjOf(info, arg) == types.Object(resP) {
+				if flObj(arg) == types.Object(resP) {
 					hasRes = true
 				}
 				if v, ok := kit.ConstInt(info, arg); ok && v >= 400 && v < 600 {
 					errStatus = true
+				} else if v, ok := fl.st.FoldExpr(arg, fl0); ok && v.Kind() == constant.Int {
+					if iv, _ := constant.Int64Val(v); iv >= 400 && iv < 600 {
+						errStatus = true
+					}
 				}
 			}
-			if sel, ok := ast.Unparen(call.Fun).(*ast.SelectorExpr); ok && kit.ObjOf(info, sel.X) == types.Object(resP) {
+			if sel, ok := ast.Unparen(call.Fun).(*ast.SelectorExpr); ok && flObj(sel.X) == types.Object(resP) {
 				hasRes = true
 			}
 			return hasRes && errStatus
 		}
-		fl := newC09Flow(f)
+		fl.inline = func(cf *kit.Func, call *ast.CallExpr) bool { return !a.isEntry(cf) }
 		fl.roles = func(call *ast.CallExpr) []string {
-			if call == credCall {
+			if a.credClients[kit.Callee(info, call)] {
 				return []string{"ln", "le"}
 			}
 			return nil
 		}
+		fl.opaque = func(call *ast.CallExpr, s kit.S) []string {
+			for _, arg := range call.Args {
+				if flObj(arg) == types.Object(resP) {
+					return []string{"res"}
+				}
+			}
+			return nil
+		}
 		bad := ""
+		badMurky := false
 		fl.onCall = func(call *ast.CallExpr, n ast.Node, s kit.S) []kit.S {
 			switch {
 			case isBody(call):
 				if (s.Get("a:le") != "F" || s.Get("a:ln.nonempty") != "T") && bad == "" {
+					badMurky = (s.Get("a:le") == "" && s.Get("opq:le") == "1") || (s.Get("a:ln.nonempty") == "" && s.Get("opq:ln") == "1")
+					if s.Get("a:le") == "T" || s.Get("a:ln.nonempty") == "F" {
+						badMurky = false
+					}
 					bad = fmt.Sprintf("the response body is written at %s with: credential-check error %s, node list %s", f.At(call),
 						c09Fact(s, "a:le", "non-nil", "nil", "not tested"), c09Fact(s, "a:ln.nonempty", "non-empty", "empty", "not tested for emptiness"))
 				}
@@ -251,12 +345,16 @@ func c09Login(c *kit.Ctx, a *c09Anchors, r4 *kit.Rule) {
 			}
 		}
 		switch {
-		case bad != "":
+		case bad != "" && !badMurky:
 			o.Violation("%s", bad)
-		case badExit != nil:
+		case bad != "":
+			o.Undecided("%s — on a path where the credential-check results were tested by code that was not interpreted", bad)
+		case badExit != nil && badExit.State.Get("opq:res") != "1":
 			o.Violation("a successful credential check can end without the token being written to the response (or after an error status): the valid user does not get logged in").WithPath(res.PathTo(*badExit))
+		case badExit != nil:
+			o.Undecided("after a successful credential check the response writer is handed to a function that was not interpreted")
 		case good == 0:
-			o.Violation("no path answers a successful credential check: %s", strings.TrimSpace(f.Name))
+			o.Undecided("no interpreted path answers a successful credential check: %s", strings.TrimSpace(f.Name))
 		default:
 			o.OK("%d exit state(s) after a successful check, all with a body and no error status", good)
 		}
